@@ -355,15 +355,21 @@ func (s *Server) publishDiagnosticsVersion(ctx context.Context, docURI protocol.
 		if err.Kind == include.ErrorParseError {
 			continue
 		}
+		// a problem inside an included file is shown on the include directive of this
+		// document through which that file is reached, never at a position of another file
+		errRange := err.Range
+		if err.File != "" && err.File != path {
+			errRange = err.Top
+		}
 		diagnostics = append(diagnostics, protocol.Diagnostic{
 			Range: protocol.Range{
 				Start: protocol.Position{
-					Line:      uint32(max(0, err.Range.Start.Line-1)),
-					Character: uint32(max(0, err.Range.Start.Column-1)),
+					Line:      uint32(max(0, errRange.Start.Line-1)),
+					Character: uint32(max(0, errRange.Start.Column-1)),
 				},
 				End: protocol.Position{
-					Line:      uint32(max(0, err.Range.End.Line-1)),
-					Character: uint32(max(0, err.Range.End.Column-1)),
+					Line:      uint32(max(0, errRange.End.Line-1)),
+					Character: uint32(max(0, errRange.End.Column-1)),
 				},
 			},
 			Severity: severity,
